@@ -875,6 +875,57 @@ def _init_precedes_window_measure(ctx: Ctx) -> bool:
     return bool(ini) and bool(mea) and max(order[id(c)] for c in ini) < min(order[id(c)] for c in mea)
 
 
+def _routed_through_mapping(fnode: ast.AST, x: ast.AST, par: str) -> Optional[str]:
+    """`x` (the stored value, locals expanded) is the values / keys / elements of a local mapping or set that a loop over parameter `par`
+    fills one entry per element, keyed by something computed from the element (or a mapping / set built from `par` in one expression):
+    returns the name of the collapsing container, None when the shape is anything else"""
+    # one expression: list(SortedDict((k(u), u) for u in par).values()), set(par), {k(u): u for u in par}.values()
+    for c in ast.walk(x):
+        if isinstance(c, (ast.DictComp, ast.SetComp)) and any(isinstance(n, ast.Name) and n.id == par for g in c.generators for n in ast.walk(g.iter)):
+            return "a dict / set display"
+        if isinstance(c, ast.Call) and (dotted(c.func) or "").split(".")[-1] in _SLOT_COLLAPSING and any(isinstance(n, ast.Name) and n.id == par for a in c.args for n in ast.walk(a)):
+            return dotted(c.func).split(".")[-1]
+    # a local container filled by a loop over the parameter
+    y = x
+    if isinstance(y, ast.Call) and isinstance(y.func, ast.Attribute) and y.func.attr in ("values", "keys", "items") and not y.args:
+        y = y.func.value
+    if not isinstance(y, ast.Name):
+        return None
+    binds = [s for s in stores_to(fnode, y.id) if isinstance(s, ast.Assign)]
+    if len(binds) != 1:
+        return None
+    ctor = binds[0].value
+    kind = None
+    if isinstance(ctor, ast.Call) and (dotted(ctor.func) or "").split(".")[-1] in _SLOT_COLLAPSING and not ctor.args:
+        kind = dotted(ctor.func).split(".")[-1]
+    elif isinstance(ctor, ast.Dict) and not ctor.keys:
+        kind = "a dict"
+    if kind is None:
+        return None
+    for loop in walk_no_nested(fnode):
+        if isinstance(loop, ast.For) and isinstance(loop.iter, ast.Name) and loop.iter.id == par and isinstance(loop.target, ast.Name):
+            for s in ast.walk(loop):
+                if isinstance(s, ast.Assign) and isinstance(s.targets[0], ast.Subscript) and norm(s.targets[0].value) == y.id and norm(s.value) == loop.target.id:
+                    return kind
+                if isinstance(s, ast.Call) and isinstance(s.func, ast.Attribute) and norm(s.func.value) == y.id and s.func.attr in ("add", "setdefault") and \
+                        s.args and norm(s.args[-1]) == loop.target.id:
+                    return kind
+    return None
+
+
+def _transparent_property(getter, setter) -> bool:
+    """getter is `return self.B`, setter is `self.B = <its parameter>`, nothing else in either (docstrings aside)"""
+    def body(fn):
+        return [s for s in fn.node.body if not (isinstance(s, ast.Expr) and isinstance(s.value, ast.Constant) and isinstance(s.value.value, str))]
+    gb, sb = body(getter), body(setter)
+    if len(gb) != 1 or len(sb) != 1 or len(setter.params) != 2:
+        return False
+    r, a = gb[0], sb[0]
+    return isinstance(r, ast.Return) and isinstance(r.value, ast.Attribute) and norm(r.value.value) == getter.self_name and \
+        isinstance(a, ast.Assign) and len(a.targets) == 1 and norm(a.targets[0]) == f"{setter.self_name}.{r.value.attr}" and \
+        isinstance(a.value, ast.Name) and a.value.id == setter.params[1]
+
+
 def check_alignment_record(ctx: Ctx, rule: str):
     """`Alignment(unitary_alignments, continuum, check_validity, disorder)` is how every alignment function hands back its result: the
     constructor keeps every unitary alignment it is given (a filter drops some: recognised shape, wrong slot), the continuum and the
@@ -904,6 +955,30 @@ def check_alignment_record(ctx: Ctx, rule: str):
         x = v
         while isinstance(x, ast.Call) and dotted(x.func) in ("list", "tuple") and len(x.args) == 1 and not x.keywords:
             x = x.args[0]
+        # the field is a plain attribute: a property / descriptor of that name decides what the store keeps and what a read gives back
+        if fld in ("unitary_alignments", "continuum"):
+            cls_ = M.classes.get("Alignment")
+            acc = [a for a in (M.find_getter(cls_, fld), M.find_setter(cls_, fld)) if a is not None] if cls_ is not None else []
+            desc = [s for k in (M.mro(cls_) if cls_ is not None else []) for s in k.node.body
+                    if isinstance(s, (ast.Assign, ast.AnnAssign)) and getattr(s, "value", None) is not None and
+                    any(isinstance(t, ast.Name) and t.id == fld for t in (s.targets if isinstance(s, ast.Assign) else [s.target]))]
+            if len(acc) == 2 and not desc and _transparent_property(acc[0], acc[1]):
+                acc = []
+            if acc or desc:
+                weak = [c for a in acc for c in ast.walk(a.node) if isinstance(c, ast.Call) and (dotted(c.func) or "").split(".")[0] in ("weakref", "WeakValueDictionary", "WeakSet", "ref", "proxy")]
+                if weak and fld == "continuum" and rule.startswith("R-C17"):
+                    ctx.bad(rule, acc[0], weak[0], f"the alignment holds its {fld} through `{norm(weak[0])}`: it does not keep what it was given at instantiation - once the caller "
+                            f"drops its own reference, `check()` without argument no longer checks against that continuum", key=key)
+                else:
+                    ctx.undecided(rule, acc[0] if acc else f, acc[0].node if acc else desc[0], f"Alignment.{fld} is a property / descriptor, not a plain attribute: what the store keeps is "
+                                  f"decided there (not a verdict)", key=key, construct=fld)
+                continue
+        if isinstance(x, ast.Call) and (dotted(x.func) or "").split(".")[0] == "weakref" and any(isinstance(n, ast.Name) and n.id == par for n in ast.walk(x)):
+            if fld == "continuum" and rule.startswith("R-C17"):
+                ctx.bad(rule, f, st[0], f"the alignment holds its {fld} through `{norm(x)}`: it does not keep what it was given at instantiation", key=key)
+            else:
+                ctx.undecided(rule, f, st[0], f"Alignment.__init__ stores `{norm(v)}` as {fld}, not the argument itself (not a verdict)", key=key)
+            continue
         if isinstance(x, ast.Name) and x.id == par:
             ctx.ok(rule, f, st[0], f"the alignment keeps the {fld} it is given", key=key)
             continue
@@ -913,7 +988,12 @@ def check_alignment_record(ctx: Ctx, rule: str):
             ctx.bad(rule, f, st[0], f"Alignment.__init__ keeps only some of the unitary alignments it is given (`{norm(v)}`): the units of the dropped ones are in no "
                     f"unitary alignment of the result", key=key)
         else:
-            ctx.undecided(rule, f, st[0], f"Alignment.__init__ stores `{norm(v)}` as {fld}, not the argument itself (not a verdict)", key=key)
+            through = _routed_through_mapping(f.node, x, par) if fld == "unitary_alignments" else None
+            if through:
+                ctx.bad(rule, f, st[0], f"Alignment.__init__ routes the unitary alignments through {through} before storing them: one per distinct key survives, so the units "
+                        f"of the others are in no unitary alignment of the result", key=key)
+            else:
+                ctx.undecided(rule, f, st[0], f"Alignment.__init__ stores `{norm(v)}` as {fld}, not the argument itself (not a verdict)", key=key)
     g = M.functions.get("SoftAlignment.__init__")
     if g is not None:
         ctx.functions_analysed.add(g.qualname)
